@@ -172,3 +172,22 @@ pub fn set_port_cursor(host: HostId, cursor: u16) {
             .verif_set_port_cursor(cursor);
     })
 }
+
+/// The next TCP initial sequence number `host` will hand out.
+pub fn tcp_isn(host: HostId) -> u32 {
+    with_kernel(host, |k| k.verif_tcp_isn())
+}
+
+/// Reposition `host`'s TCP initial-sequence-number counter. Like
+/// `set_port_cursor` this only moves a deterministic counter, so a script can
+/// start connections just below 2^32 and exercise sequence-number wrap-around
+/// without opening tens of thousands of connections first.
+pub fn set_tcp_isn(host: HostId, isn: u32) {
+    CURRENT.with(|c| {
+        let mut cell = c.borrow_mut();
+        let net = cell
+            .as_mut()
+            .expect("no Net installed — call Net::enter() first");
+        net.fabric.kernel_mut(host).verif_set_tcp_isn(isn);
+    })
+}
